@@ -29,6 +29,20 @@ def programOf (fs : List (APath × FileContent)) : Option (List ProgFile) :=
     | .idl _, none => none
     | _, acc => acc) (some [])
 
+/-- sites (file, position) of external type definitions, with their keys -/
+def extSites (fs : List (APath × FileContent)) : List (String × String × Pos) :=
+  fs.flatMap (fun (p, c) => match c with
+    | .ext defs => defs.map (fun d => (d.key, showPath p, d.pos))
+    | _ => [])
+
+/-- every site — declaration or external definition — whose qualified name is also taken by a built-in, another
+    declaration or another external definition: the program must be rejected as a duplicate at one of them -/
+def allDuplicateSites (builtins : Registry) (fs : List (APath × FileContent)) (prog : List ProgFile) : List (String × Pos) :=
+  let items : List (String × String × Pos) :=
+    extSites fs ++ (progDecls prog).map (fun (f, ns, d) => (declKey ns d, f, declPos d))
+  (items.zipIdx.filter (fun ((k, _, _), i) =>
+      (builtins.get k).isSome || items.zipIdx.any (fun ((k', _, _), j) => i != j && k' == k))).map (fun ((_, f, p), _) => (f, p))
+
 def extRegistry (fs : List (APath × FileContent)) : Registry :=
   fs.flatMap (fun (_, c) => match c with
     | .ext defs => defs.map (fun d => { key := d.key, prim := d.prim, arity := d.arity })
@@ -47,7 +61,7 @@ def spec (req : Json) : Except String Json := do
   | none => pure (Json.mkObj [("holds", kind == "diags"), ("note", "syntax"), ("rules", strsJ ["syntax"])])
   | some prog =>
     let pre := builtins ++ extRegistry fs
-    let dups := duplicateSites pre prog
+    let dups := allDuplicateSites builtins fs prog
     if !dups.isEmpty then
       let ok := kind == "raised" && (match decodeImplDiag impl with
         | .ok d => d.cls == "TypeResolvingException" && dups.any (fun (f, p) => f == d.file && p == d.pos)
